@@ -126,14 +126,15 @@ func inPkgs(fn *ssa.Function, pkgs ...string) bool {
 func init() {
 	register(&Property{
 		ID:    "C02",
-		Rules: []string{"C02-R1", "C02-R2", "C02-R3", "C02-R4", "C02-R5", "C02-R6", "C02-R7", "C02-R8", "C02-R9", "C15-R1", "C06-R1", "C01-R1", "C01-R4", "C01-R5", "C07-R6", "C15-R12", "C15-R13"},
-		Explain: "Decides the accounting shape of the register: C02-R1 at the register's expansion sites (template path via GetReportItem, the old reporter, the single-element and group-by-food forms) found → quantity x each resolved element under the element's name, not found → the food itself with its own quantity, and the same pair goes to the day's accumulator in the same branch; " +
+		Rules: []string{"C02-R1", "C02-R2", "C02-R3", "C02-R4", "C02-R5", "C02-R6", "C02-R7", "C02-R8", "C02-R9", "C15-R1", "C06-R1", "C01-R1", "C01-R4", "C01-R5", "C07-R6", "C15-R12", "C15-R13", "C02-R10"},
+		Explain: "Decides the accounting shape of the register: C02-R10 no iteration of a loop in the reporting code is cut short by a test on a floating-point amount (rows and contributions exist whatever the amount: zero, tiny or negative); C02-R1 at the register's expansion sites (template path via GetReportItem, the old reporter, the single-element and group-by-food forms) found → quantity x each resolved element under the element's name, not found → the food itself with its own quantity, and the same pair goes to the day's accumulator in the same branch; " +
 			"C02-R2 Accumulator.Add over sign(val) x exists routes negative values to the Negative slot and others to Positive, += for an existing key; " +
 			"C02-R3 the day's totals are listed through collect-then-sort on the element name; C02-R4 the constant register and summary templates are well-typed against the report item they are executed with (field paths exist, functions and arities match, numbers go through formatValue); C02-R5 NewLogNodeFromElements merges repeated foods of a day by name in first-appearance position; " +
 			"C02-R6 the register and summary reporters keep no state across days (a day's totals list only that day's elements): Process is streaming or accumulating, never both, and writes no package-level variable; C02-R7 every printf format of the register packages is built from constants; C02-R9 the totals block is guarded by an emptiness test of the day's accumulator; C15-R1 (shared) the selectable templates show the same fields (the sum column is the sum in each of them); C02-R8 what goes into the day's accumulator does not depend on totals-only/no-totals (the switches gate printed lines only); " +
 			"C01-R1/R4/R5 (shared with C01) the resolved element lists the quantities are multiplied with are built by merge-by-name only, so each resolved element appears once. Shared: C07-R6 every reporter's Process leaves its loops over the day's entries only at the head, on a set error or with an error value; C15-R12 the only arithmetic on register values outside the accumulator is positive + negative of one name; C15-R13 every flag of a lineage level is asked for on every level.",
 		NotDecided: "the arithmetic, the exact text layout, that every selected day appears in file order (C06/C12)",
 		Run: func(c *core.Ctx) {
+			ruleNoAmountSkips(c, "C02-R10", func(p string) bool { return strings.HasPrefix(p, core.CmdPath) })
 			ruleNoFlagSkipped(c, "C15-R13")
 			ruleSumOfRegisters(c, "C15-R12")
 			ruleEveryEntrySeen(c, "C07-R6")
